@@ -1,10 +1,16 @@
 // C23 — Cluster role assignments stay consistent.
 // Explicit-state BFS over the real ClusterFSM: invariants evaluated in every reachable state,
 // and a per-transition check that re-registering an existing node leaves the recorded role alone.
+// A product pass then installs the snapshot of every reachable state onto FSMs that already hold
+// another reachable state (InstallSnapshot on a lagging follower): the role invariants and the role
+// assignment of the snapshot's state must hold in the result and after one more command.
 package main
 
 import (
+	"encoding/json"
 	"fmt"
+	"os"
+	"runtime/pprof"
 	"sort"
 	"strings"
 	"sync"
@@ -19,6 +25,15 @@ type scenario struct {
 	seed  []fsmx.Cmd
 	alpha []fsmx.Cmd
 	depth int
+	recs  [][]rec // distinct reachable states by depth
+}
+
+// rec is one distinct reachable state: representative history, bytes of a Snapshot+Persist taken in
+// it, and its un-normalised dump.
+type rec struct {
+	hist []int
+	b    []byte
+	raw  string
 }
 
 type pre struct{ class, last string }
@@ -38,7 +53,7 @@ func report(sc *scenario, class string, hist []int) {
 	}
 	p := pre{class, last}
 	mu.Lock()
-	if old, ok := reps[p]; !ok || len(hist) < len(old) {
+	if old, ok := reps[p]; !ok || fsmx.LessHist(hist, old) {
 		reps[p] = append([]int{}, hist...)
 		repsScen[p] = sc
 	}
@@ -139,8 +154,287 @@ func failsWith(sc *scenario, class string) func([]int) bool {
 	}
 }
 
+// ---- snapshot installed onto an FSM that already holds state ---------------------------------------
+
+type target struct {
+	names []string
+	cmds  []fsmx.Cmd
+	raw   string
+}
+
+func mkTarget(sc *scenario, hist []int) target {
+	t := target{}
+	t.cmds = append(t.cmds, sc.seed...)
+	if len(sc.seed) > 0 {
+		t.names = append(t.names, "seed=hierarchy")
+	}
+	for _, h := range hist {
+		t.cmds = append(t.cmds, sc.alpha[h])
+		t.names = append(t.names, sc.alpha[h].Name)
+	}
+	return t
+}
+
+// richTargets: followers holding nodes in every role marking plus (second one) the RBAC hierarchy.
+func richTargets() []target {
+	roles := map[string]string{"n1": "writer", "n2": "writer", "n3": "reader"}
+	n := fsmx.NodeCmds([]string{"n1", "n2", "n3"}, roles)
+	pickCmd := func(name string) fsmx.Cmd {
+		for _, c := range n {
+			if c.Name == name {
+				return c
+			}
+		}
+		panic("no command " + name)
+	}
+	a := []fsmx.Cmd{pickCmd("AddNode(n1,writer)"), pickCmd("AddNode(n2,writer)"), pickCmd("AddNode(n3,reader)"), pickCmd("Promote(n1)"), pickCmd("AssignCompactor(n3)")}
+	mk := func(cs []fsmx.Cmd) target {
+		t := target{cmds: cs}
+		for _, c := range cs {
+			t.names = append(t.names, c.Name)
+		}
+		fsmx.Prepare(cs)
+		f := fsmx.Build(cs)
+		t.raw = fsmx.Raw(f)
+		d, _ := fsmx.Canon(f)
+		want := []string{"nodes", "primaryWriterID", "activeCompactorID"}
+		if len(cs) > len(a) {
+			want = append(want, "tokens", "organizations", "teams", "roles", "measurementPermissions", "tokenMemberships")
+		}
+		for _, k := range want {
+			if x, _ := json.Marshal(d[k]); len(x) <= 2 {
+				ev.Unbound("C23 rich snapshot-install target holds no " + k + " (alphabet drifted)")
+			}
+		}
+		return t
+	}
+	// the hierarchy goes first: its commands refer to ids stamped from log positions 1..8
+	return []target{mk(a), mk(append(append([]fsmx.Cmd{}, fsmx.HierarchySeed()...), a...))}
+}
+
+var roleKeys = []string{"nodes", "primaryWriterID", "activeCompactorID"}
+
+// judge compares the state dt reached through the snapshot install with the reference state ds
+// (straight replay): invariant classes dt violates and ds does not, plus any difference in the role
+// assignment (node records, primary writer id, compactor id).
+func judge(prefix string, ds, dt fsmx.Dump) []string {
+	var out []string
+	own := stateInvariants(ds)
+	for cl := range stateInvariants(dt) {
+		if !own[cl] {
+			out = append(out, prefix+cl)
+		}
+	}
+	for _, k := range roleKeys {
+		x, _ := json.Marshal(ds[k])
+		y, _ := json.Marshal(dt[k])
+		if string(x) != string(y) {
+			out = append(out, prefix+"role-state-differs")
+			break
+		}
+	}
+	sort.Strings(out)
+	return out
+}
+
+const (
+	ontoPrefix  = "restore-onto-nonfresh:"
+	onto1Prefix = "restore-onto-nonfresh+1:"
+)
+
+// ontoClasses evaluates one case from scratch (minimiser + reference implementation of the bulk pass):
+// snapshot of seed+hist installed onto an FSM that replayed tcmds; then >= 0: one more command
+// applied to both the straight replay and the installed FSM.
+func ontoClasses(sc *scenario, hist []int, tcmds []fsmx.Cmd, then int) []string {
+	s := fsmx.Replay(sc.alpha, sc.seed, hist)
+	b, err := fsmx.SnapshotBytes(s)
+	if err != nil {
+		return nil
+	}
+	t := fsmx.Build(tcmds)
+	if err := fsmx.RestoreOnto(t, b); err != nil {
+		return []string{ontoPrefix + "error"}
+	}
+	prefix := ontoPrefix
+	if then >= 0 {
+		idx := uint64(len(sc.seed) + len(hist) + 1)
+		sc.alpha[then].Apply(s, idx)
+		sc.alpha[then].Apply(t, idx)
+		prefix = onto1Prefix
+	}
+	ds, _ := fsmx.Canon(s)
+	dt, _ := fsmx.Canon(t)
+	return judge(prefix, ds, dt)
+}
+
+type ontoCase struct {
+	sc   *scenario
+	hist []int
+	tgt  target
+	then int
+}
+
+var ontoReps = map[string]ontoCase{}
+
+func ontoLess(a, b ontoCase) bool {
+	if x, y := len(a.hist)+len(a.tgt.cmds), len(b.hist)+len(b.tgt.cmds); x != y {
+		return x < y
+	}
+	if len(a.hist) != len(b.hist) {
+		return len(a.hist) < len(b.hist)
+	}
+	if x, y := strings.Join(a.tgt.names, ";"), strings.Join(b.tgt.names, ";"); x != y {
+		return x < y
+	}
+	if a.then != b.then {
+		return a.then < b.then
+	}
+	return fsmx.LessHist(a.hist, b.hist)
+}
+
+func reportOnto(class string, c ontoCase) {
+	mu.Lock()
+	if old, ok := ontoReps[class]; !ok || ontoLess(c, old) {
+		ontoReps[class] = c
+	}
+	mu.Unlock()
+}
+
+func has(l []string, x string) bool {
+	for _, e := range l {
+		if e == x {
+			return true
+		}
+	}
+	return false
+}
+
+// ontoPass runs the product for one scenario. Returns (pairs, pairs where the target held another
+// state, +1 evaluations, complete).
+func ontoPass(sc *scenario, quick bool, rich []target, stop func() bool) (int64, int64, int64, bool) {
+	lim, slack := pick(quick, 2, 3), pick(quick, 0, 1)
+	tdepth := func(k int) int { // triangular: the many deepest states meet the fewer shallow targets
+		if rem := sc.depth - k + slack; rem < lim {
+			return rem
+		}
+		return lim
+	}
+	var tg [][]target
+	for d := 0; d <= sc.depth && d <= lim; d++ {
+		var l []target
+		for _, r := range sc.recs[d] {
+			t := mkTarget(sc, r.hist)
+			t.raw = r.raw
+			l = append(l, t)
+		}
+		tg = append(tg, l)
+	}
+	var ss []rec
+	for d := 0; d <= sc.depth; d++ {
+		ss = append(ss, sc.recs[d]...)
+	}
+	var pairs, held, plus1 int64
+	ok := fsmx.ParallelFor(len(ss), stop, func(i int) {
+		s := ss[i]
+		k := len(s.hist)
+		ds, _ := fsmx.Canon(fsmx.Replay(sc.alpha, sc.seed, s.hist))
+		fr, err := fsmx.RestoreFrom(s.b)
+		if err != nil {
+			reportOnto(ontoPrefix+"error", ontoCase{sc, s.hist, target{}, -1})
+			return
+		}
+		rawFresh := fsmx.Raw(fr)
+		dfr, _ := fsmx.Canon(fr)
+		clsFresh := judge(ontoPrefix, ds, dfr)
+		// +1 step (snapshot states at depth <= bound-2, targets at depth <= 2): references per command
+		doPlus := k <= sc.depth-2
+		type ref1 struct {
+			ds  fsmx.Dump
+			raw string
+			cls []string
+		}
+		var refs []ref1
+		idx := uint64(len(sc.seed) + k + 1)
+		if doPlus {
+			for c := range sc.alpha {
+				sr := fsmx.Replay(sc.alpha, sc.seed, s.hist)
+				sc.alpha[c].Apply(sr, idx)
+				d1, _ := fsmx.Canon(sr)
+				f1, _ := fsmx.RestoreFrom(s.b)
+				sc.alpha[c].Apply(f1, idx)
+				df1, _ := fsmx.Canon(f1)
+				refs = append(refs, ref1{d1, fsmx.Raw(f1), judge(onto1Prefix, d1, df1)})
+			}
+		}
+		var n, h, p1 int64
+		try := func(t target, plusOK bool) {
+			n++
+			if t.raw != s.raw {
+				h++
+			}
+			ft := fsmx.Build(t.cmds)
+			if err := fsmx.RestoreOnto(ft, s.b); err != nil {
+				reportOnto(ontoPrefix+"error", ontoCase{sc, s.hist, t, -1})
+				return
+			}
+			cls := clsFresh
+			if fsmx.Raw(ft) != rawFresh {
+				dt, _ := fsmx.Canon(ft)
+				cls = judge(ontoPrefix, ds, dt)
+			}
+			for _, cl := range cls {
+				reportOnto(cl, ontoCase{sc, s.hist, t, -1})
+			}
+			if len(cls) > 0 || !doPlus || !plusOK {
+				return
+			}
+			for c := range sc.alpha {
+				p1++
+				f2 := fsmx.Build(t.cmds)
+				if fsmx.RestoreOnto(f2, s.b) != nil {
+					continue
+				}
+				sc.alpha[c].Apply(f2, idx)
+				cls1 := refs[c].cls
+				if fsmx.Raw(f2) != refs[c].raw {
+					d2, _ := fsmx.Canon(f2)
+					cls1 = judge(onto1Prefix, refs[c].ds, d2)
+				}
+				for _, cl := range cls1 {
+					reportOnto(cl, ontoCase{sc, s.hist, t, c})
+				}
+			}
+		}
+		td := tdepth(k)
+		for d := 0; d <= td && d < len(tg); d++ {
+			for _, t := range tg[d] {
+				try(t, d <= pick(quick, 1, 2))
+			}
+		}
+		for j := td + 1; j < k; j++ { // the lagging follower: deeper proper prefixes of s's own history
+			t := mkTarget(sc, s.hist[:j])
+			t.raw = fsmx.Raw(fsmx.Build(t.cmds))
+			try(t, true)
+		}
+		for _, t := range rich {
+			try(t, true)
+		}
+		mu.Lock()
+		pairs += n
+		held += h
+		plus1 += p1
+		mu.Unlock()
+	})
+	return pairs, held, plus1, ok
+}
+
 func main() {
 	run := ev.Start("C23", "model_checking")
+	if pf := os.Getenv("VERIF_PROF"); pf != "" {
+		fh, _ := os.Create(pf)
+		pprof.StartCPUProfile(fh)
+		defer pprof.StopCPUProfile()
+	}
 	quick := run.Quick()
 	roles := map[string]string{"n1": "writer", "n2": "writer", "n3": "reader"} // n4 is never registered
 	nodeAlpha := fsmx.NodeCmds([]string{"n1", "n2", "n3", "n4"}, roles)
@@ -159,6 +453,9 @@ func main() {
 	var per []map[string]any
 	for _, sc := range scs {
 		sc := sc
+		fsmx.Prepare(sc.alpha)
+		fsmx.Prepare(sc.seed)
+		sc.recs = make([][]rec, sc.depth+1)
 		res := xstate.BFS(xstate.Config{NCmds: len(sc.alpha), MaxDepth: sc.depth, Stop: run.TimeUp,
 			Expand: func(hist []int, wantKey string, leaf bool, visit func(int, string)) {
 				f := fsmx.Replay(sc.alpha, sc.seed, hist)
@@ -168,6 +465,13 @@ func main() {
 					ev.Nondeterminism(fmt.Sprintf("C23 replay of %v produced a different state", fsmx.Names(sc.alpha, hist)))
 				}
 				viol := stateInvariants(d)
+				if b, err := fsmx.SnapshotBytes(f); err == nil {
+					mu.Lock()
+					sc.recs[len(hist)] = append(sc.recs[len(hist)], rec{hist: append([]int{}, hist...), b: b, raw: fsmx.Raw(f)})
+					mu.Unlock()
+				} else {
+					report(sc, "snapshot-error", hist)
+				}
 				var inh map[string]bool
 				if v, ok := inherit.Load(wantKey); ok {
 					inh = v.(map[string]bool)
@@ -206,6 +510,20 @@ func main() {
 		per = append(per, map[string]any{"scenario": sc.name, "alphabet": len(sc.alpha), "seed_len": len(sc.seed), "depth": sc.depth,
 			"states": res.States, "transitions": res.Transitions, "per_depth_frontier": res.PerDepth, "complete": res.Complete})
 		fmt.Printf("scenario %q: alphabet=%d depth=%d states=%d transitions=%d complete=%v\n", sc.name, len(sc.alpha), sc.depth, res.States, res.Transitions, res.Complete)
+		for _, l := range sc.recs {
+			sort.Slice(l, func(i, j int) bool { return fsmx.LessHist(l[i].hist, l[j].hist) })
+		}
+	}
+	rich := richTargets()
+	var ontoCov []map[string]any
+	var ontoPairs, ontoPlus1 int64
+	for _, sc := range scs {
+		pairs, held, plus1, ok := ontoPass(sc, quick, rich, run.TimeUp)
+		complete = complete && ok
+		ontoPairs += pairs
+		ontoPlus1 += plus1
+		ontoCov = append(ontoCov, map[string]any{"scenario": sc.name, "pairs": pairs, "pairs_target_held_another_state": held, "plus_one_command_evaluations": plus1, "complete": ok})
+		fmt.Printf("scenario %q: snapshot-install pass: %d (snapshot,target) pairs (%d onto a different state), %d one-more-command evaluations complete=%v\n", sc.name, pairs, held, plus1, ok)
 	}
 	keys := make([]pre, 0, len(reps))
 	for p := range reps {
@@ -223,6 +541,48 @@ func main() {
 		run.Violate(p.class+"|"+seedNote+strings.Join(names, ";"), "invariant "+p.class+" is false after this command history",
 			map[string]any{"scenario": sc.name, "history": names, "found_at": fsmx.Names(sc.alpha, reps[p])})
 	}
+	var ocl []string
+	for cl := range ontoReps {
+		ocl = append(ocl, cl)
+	}
+	sort.Strings(ocl)
+	for _, class := range ocl {
+		c := ontoReps[class]
+		sc, tc := c.sc, c.tgt.cmds
+		minH := ev.Minimize(c.hist, func(h []int) bool { return has(ontoClasses(sc, h, tc, c.then), class) })
+		ix := make([]int, len(tc))
+		for i := range ix {
+			ix[i] = i
+		}
+		sub := func(l []int) []fsmx.Cmd {
+			var o []fsmx.Cmd
+			for _, i := range l {
+				o = append(o, tc[i])
+			}
+			return o
+		}
+		minT := sub(ev.Minimize(ix, func(l []int) bool { return has(ontoClasses(sc, minH, sub(l), c.then), class) }))
+		seedNote := ""
+		if len(sc.seed) > 0 {
+			seedNote = "seed=hierarchy;"
+		}
+		var tn []string
+		for _, x := range minT {
+			tn = append(tn, x.Name)
+		}
+		sig := class + "|snapshot-of=" + seedNote + strings.Join(fsmx.Names(sc.alpha, minH), ";") + "|onto=" + strings.Join(tn, ";")
+		rep := map[string]any{"scenario": sc.name, "snapshot_of": fsmx.Names(sc.alpha, minH), "installed_onto_fsm_that_applied": tn,
+			"found_at": map[string]any{"snapshot_of": fsmx.Names(sc.alpha, c.hist), "installed_onto": c.tgt.names}}
+		if c.then >= 0 {
+			sig += "|then=" + sc.alpha[c.then].Name
+			rep["then"] = sc.alpha[c.then].Name
+		}
+		run.Violate(sig, "after installing the snapshot of the first history onto an FSM that had already applied the second history, "+strings.TrimPrefix(strings.TrimPrefix(class, onto1Prefix), ontoPrefix)+" (relative to the state the snapshot was taken from)", rep)
+	}
+	run.Coverage["snapshot_install"] = ontoCov
+	run.Coverage["snapshot_install_pairs"] = ontoPairs
+	run.Coverage["snapshot_install_plus_one_evaluations"] = ontoPlus1
+	run.Coverage["snapshot_install_bound"] = fmt.Sprintf("snapshot of every reachable state at depth k installed (real Restore) onto every reachable state of the same scenario at depth <= min(%d, bound-k+%d), every deeper proper prefix of its own history and %d rich targets; for k <= bound-2 and targets at depth <= %d / prefixes / rich, every alphabet command applied afterwards", pick(quick, 2, 3), pick(quick, 0, 1), len(rich), pick(quick, 1, 2))
 	run.Coverage["states"] = totalStates
 	run.Coverage["transitions"] = totalTrans
 	run.Coverage["traces_validated_against_impl"] = totalTrans
@@ -232,6 +592,7 @@ func main() {
 	run.Coverage["invariant_evaluations"] = evals
 	run.Assume("AddNode payloads have exactly the fields the join paths set (no WriterState); UpdateNode is a read-modify-write of the current record")
 	run.Assume("node ids n1,n2 (writers), n3 (reader), n4 (never registered); RBAC ids as in C22; depth bound per scenario as reported")
+	pprof.StopCPUProfile()
 	run.Finish()
 }
 
